@@ -60,7 +60,7 @@ func (r *Runner) Exec(line string) (out string, emit bool) {
 	}
 	r.stats["op:"+f[0]]++
 	switch f[0] {
-	case "S", "sadd", "smerge", "scopy", "sclear", "srew", "sobs", "skr":
+	case "S", "sadd", "smerge", "scopy", "sclear", "srew", "sobs", "skr", "sencdec", "sproto":
 		return r.execStore(f[0], f[1:]), true
 	case "M", "mv", "ml", "mi", "K", "add", "q", "qs", "obs", "merge", "copy", "clear", "rew", "encchk", "dec", "decm", "same":
 		return r.execSketch(f[0], f[1:]), true
